@@ -209,6 +209,15 @@ func formatInlineSQL(cmd *cobra.Command, sql string) error {
 		return fmt.Errorf("formatting failed: %w", err)
 	}
 
+	// --check: report through the exit status whether the text is already
+	// formatted, as for files and stdin, instead of printing it
+	if opts.Check {
+		if strings.TrimRight(formattedSQL, "\n") != strings.TrimRight(sql, "\n") {
+			return fmt.Errorf("input needs formatting")
+		}
+		return nil
+	}
+
 	// Ensure trailing newline
 	if !strings.HasSuffix(formattedSQL, "\n") {
 		formattedSQL += "\n"
